@@ -10,6 +10,7 @@
 //         sub  : subimage_view(underlying, ox, oy, w, h), underlying (w+ox+1) x (h+oy+1), ox = o % 3, oy = o / 3
 //         xstep: subsampled_view(underlying, 2, 1), underlying (2w - o%2) x h          (o even: 1-D traversable)
 //         trans: transposed_view(underlying), underlying h x w
+//         flipx: flipped_left_right_view(underlying)  (negative x step);  flipy: flipped_up_down_view(underlying)  (negative row step)
 //   so,do the `o` parameter of the source / destination kind; for bit-aligned organisations additionally the first pixel of the
 //         underlying image starts at bit (o / 9) % 8 of the buffer
 //   spad,dpad row padding of the underlying image in memory units (bytes; bits for bit-aligned)
@@ -134,6 +135,8 @@ template <typename O, typename F> static void with_view(Side<O>& s, F f) {
     else if (s.g.kind == "sub") f(gil::subimage_view(u, s.g.ox, s.g.oy, s.g.w, s.g.h));
     else if (s.g.kind == "xstep") f(gil::subsampled_view(u, 2, 1));
     else if (s.g.kind == "trans") f(gil::transposed_view(u));
+    else if (s.g.kind == "flipx") f(gil::flipped_left_right_view(u));
+    else if (s.g.kind == "flipy") f(gil::flipped_up_down_view(u));
     else throw std::runtime_error("kind");
 }
 
